@@ -6,6 +6,7 @@ SPEC = {
     "props": "Props/C19.v",
     "check_vo": ["Model/TcQosCheck.vo"],
     "driver": "c19",
+    "driver_args": ["-shard", "60"],
     "component": "bpf/qos_ratelimit.c + qos.Manager",
     "clauses": {0: "upper bound: bytes admitted in any window <= burst + rate*window",
                 1: "no starvation: credit discarded while the subscriber is refused stays within burst + one max packet",
